@@ -38,7 +38,9 @@ FIELDS = ['id', 'name', 'resource', 'estimate', 'spent', 'start', 'end', 'predec
 COLORS = ['91m', '92m', '93m', '94m', '95m', '96m', '97m', '37m']
 THEME_COLORS = COLORS + [None, '']          # None / '' mean "no colour" (pjplan.utils.colored_text)
 long_text = st.text(alphabet=st.sampled_from(list('abcXYZ 0123456789_-.,;:|[]()äж中')), min_size=0, max_size=60)
-name_st = st.one_of(st.none(), long_text, st.sampled_from(['T', 'Design', 'a b', '   lead', 'trail   ']))
+# texts with line breaks (the CSV layer stores and returns them): a sheet still has one line per task
+MULTILINE = ['Summary\ndetails', 'a\r\nb', 'tail\n', '\nhead', 'one\n\nthree', 'cr\rcr']
+name_st = st.one_of(st.none(), long_text, long_text, st.sampled_from(['T', 'Design', 'a b', '   lead', 'trail   ']), st.sampled_from(MULTILINE))
 
 
 @st.composite
@@ -51,7 +53,7 @@ def sheet_case(draw, max_tasks=8):
         if draw(st.integers(0, 5)) == 0:
             cu['größe'] = draw(st.sampled_from(['XL', 'a longer size text']))
         if draw(st.integers(0, 3)) == 0:
-            cu['note'] = draw(st.sampled_from(['n', 'a much longer note than its header', '']))
+            cu['note'] = draw(st.sampled_from(['n', 'a much longer note than its header', '', 'line 1\nline 2']))
         if draw(st.integers(0, 5)) == 0:
             cu['print_color'] = draw(st.sampled_from(COLORS + [None, '']))
         if draw(st.integers(0, 3)) == 0:
@@ -61,13 +63,14 @@ def sheet_case(draw, max_tasks=8):
     ext = []
     for k in range(draw(st.integers(0, 2))):
         ext.append(dict(id=draw(st.sampled_from([100 + k, m.order[0]])), start='2026-01-01T00:00:00', end='2026-01-02T00:00:00',
-                        succ=[draw(st.sampled_from(m.order))], pred=[draw(st.sampled_from(m.order))] if draw(st.booleans()) else []))
+                        succ=[draw(st.sampled_from(m.order))], xpred=[draw(st.sampled_from(m.order))] if draw(st.booleans()) else []))
     spec['ext'] = ext
     fields = draw(st.one_of(st.none(), st.lists(st.sampled_from(FIELDS), min_size=1, max_size=7)))
     theme = draw(st.one_of(st.none(), st.fixed_dictionaries({'level_colors': st.lists(st.sampled_from(THEME_COLORS), max_size=8)}),
                            st.fixed_dictionaries({'level_colors': st.lists(st.sampled_from(THEME_COLORS), max_size=8), 'header_color': st.sampled_from(THEME_COLORS)})))
     return dict(spec=spec, recv=draw(st.sampled_from(['wbs', 'wbs-repr', 'task', 'task-repr', 'roots', 'children', 'query', 'tasks-list', 'all_children', 'predecessors', 'roots-repr'])),
-                of=draw(st.integers(0, 30)), fields=fields, children=draw(st.booleans()), theme=theme)
+                of=draw(st.integers(0, 30)), fields=fields, children=draw(st.booleans()), theme=theme,
+                fields_form=draw(st.sampled_from(['list', 'list', 'tuple', 'iterator', 'generator'])))
 
 
 def linked_expect(task, others):
@@ -99,7 +102,7 @@ def check(case, exclude=True):
     m = Model(spec)
     w, objs, ext = specs.build(spec)
     for e in spec.get('ext', []):
-        for v_ in e.get('pred', []):
+        for v_ in e.get('xpred', []):
             try:
                 ext[e['id']].predecessors.append(objs[v_])
             except RuntimeError:
@@ -139,7 +142,10 @@ def check(case, exclude=True):
         else:
             buf = io.StringIO()
             with contextlib.redirect_stdout(buf):
-                target.print(fields, children, theme)
+                ff = case.get('fields_form') or 'list'
+                # `fields` is documented as an iterable of names: a tuple or a one-shot iterator is as good as a list
+                farg = fields if fields is None or ff == 'list' else tuple(fields) if ff == 'tuple' else iter(list(fields)) if ff == 'iterator' else (f for f in list(fields))
+                target.print(farg, children, theme)
             text = buf.getvalue()
             if text.endswith('\n'):
                 text = text[:-1]
@@ -197,6 +203,13 @@ def check(case, exclude=True):
                 exp = '   ' * level + (t.name if t.name is not None else '')
             elif f in ('tag', 'note', 'größe') and isinstance(t.__dict__.get(f), str):
                 exp = t.__dict__[f]
+            if exp is not None and ('\n' in exp or '\r' in exp):
+                # how a line break inside a value is shown is left open; only the structure (one line per task, equal
+                # widths, columns not overflowing) is judged for such cells - but the indentation of a name still is
+                if f == 'name' and not seg.startswith('   ' * level):
+                    res.v('C20:cell-text-wrong(name-indentation)', dict(field=f, cell=seg, line=line))
+                    return res
+                exp = None
             if exp is not None:
                 if len(exp) > len(f):
                     longer = True
